@@ -259,6 +259,10 @@ def shards(tier, seed):
         total = len(alph) ** n
         for lo in range(0, total, 2187):
             sh.append(("data", cfg, lo, min(total, lo + 2187)))
+    for n in range(2, (5 if tier == "quick" else 6) + 1):
+        for cost, msl in (("L2", 1), ("L2", 2), ("GaussianVar", 2)):
+            if n >= 2 * msl:
+                sh.append(("data2", (n, cost, msl, 0.05), 0, 4 ** n))
     # big shards first for load balance
     sh.sort(key=lambda s: -(s[3] - s[2]))
     return sh
@@ -269,6 +273,7 @@ def bounds(tier, seed):
         "table_configs(n,msl,pen,p,variant,slack_alphabet,max_deviations)": [list(map(str, c)) for c in table_configs(tier)],
         "data_configs": sorted({str((c[0], c[1], c[2], c[3])) for c in data_configs(tier, seed)})[:60],
         "penalty_scales_data": [0.0, 0.05, 1.0],
+        "two_column_data": "all 2-column matrices over (0,3), n<=5 (quick)/6, L2 (msl 1,2) and GaussianVar (msl 2), scale 0.05",
     }
 
 
@@ -293,6 +298,11 @@ def run_shard(shard):
             if p == 2:
                 s2 = allv[partner(i, len(allv))]
                 case["slacks2"] = list(s2)
+            check_case(acc, case)
+    elif kind == "data2":
+        n, cost, msl, scale = cfg
+        for flat in itertools.islice(itertools.product((0, 3), repeat=2 * n), lo, hi):
+            case = {"mode": "data", "x": [list(flat[2 * i:2 * i + 2]) for i in range(n)], "cost": cost, "msl": msl, "scale": scale}
             check_case(acc, case)
     else:
         alph, n, cost, msl, scale = cfg
@@ -324,7 +334,8 @@ def check_case(acc, case):
             else:
                 from skchange.change_detectors import PELT
 
-                x = np.array(case["x"], dtype=float).reshape(-1, 1)
+                x = np.array(case["x"], dtype=float)
+                x = x.reshape(len(x), -1)
                 n, msl = len(x), case["msl"]
                 X = pd.DataFrame(x)
                 det = PELT(make_cost(case["cost"]), penalty_scale=case["scale"], min_segment_length=msl)
